@@ -177,7 +177,7 @@ func c04SameDigits(pfx string, digits int) uint64 {
 // c04Vary builds the message text with the data leaves replaced: vary=0 keeps
 // the vector (only the $VARIABLES are given a value of their type); vary=1
 // replaces every date-time, byte string and big integer by a symbolic value
-// (first 8 bytes of longer strings); vary=2 replaces every plain decimal
+// (first 8 bytes of longer byte strings; big integers of up to 16 bytes, their last 8 bytes); vary=2 replaces every plain decimal
 // integer, long integer, interval and boolean by a symbolic value of the same
 // number of digits. zero reports whether some varied leaf has the value zero /
 // false (see the known finding about zero-valued optional elements).
@@ -205,14 +205,20 @@ func c04Vary(msg []byte, vary int) (out []byte, zero bool) {
 				val = []byte("DEADBEEFCAFE0001")
 				repl = val
 			}
-			if vary == 1 && len(val)%2 == 0 && len(val) > 0 {
+			if vary == 1 && len(val)%2 == 0 && len(val) > 0 && !(l.typ == "BigInteger" && len(val) > 32) {
 				raw, err := hex.DecodeString(string(val))
 				if err == nil {
 					k := len(raw)
 					if k > 8 {
 						k = 8
 					}
-					copy(raw, verifNondetBytes(pfx, k))
+					if l.typ == "BigInteger" {
+						// the low-order bytes: the leading ones are sign padding in the
+						// vectors, varying them only varies the length normalisation
+						copy(raw[len(raw)-k:], verifNondetBytes(pfx, k))
+					} else {
+						copy(raw, verifNondetBytes(pfx, k))
+					}
 					repl = []byte(hex.EncodeToString(raw))
 				}
 			}
